@@ -640,6 +640,32 @@ def marked_single_edits(col, lang):
     col.label("single:marked-bases")
 
 
+def header_file_edits(col, lang, seed):
+    """Generated C / C++ programs stored as header files ('.h' / '.hpp': several Pygments lexers claim them), scanned,
+    edited on disk with one comment whose text looks like another language, scanned again: every such comment body at the
+    top, in the middle and at the end of the file."""
+    import random
+
+    ext = "h" if lang == "C" else "hpp"
+    rnd = random.Random(seed)
+    n = 0
+    for _ in range(3):
+        text = P.render(P.gen_program(rnd, lang, 20)).text
+        boundaries = safe_lines(lang, text)[0]
+        for body in [b for b in COMMENT_BODIES if b.startswith(("@", "[", "see [")) or "def " in b or "function " in b]:
+            for after in (0, boundaries[len(boundaries) // 2], boundaries[-1]):
+                for style in ("line", "block"):
+                    edits = [{"after": after, "lines": comment_line(lang, style, body, ""), "kind": "comment"}]
+                    base, bad = check_plan_on_disk(lang, text, edits, ext)
+                    if base is None:
+                        continue
+                    n += 1
+                    if bad:
+                        col.fail({"lang": lang, "text": text, "edits": edits, "on_disk": ext}, bad[0], bad[1])
+    col.bulk(n, n)
+    col.label(f"single:header-file:{ext}")
+
+
 def gen_strip(col, seed, n, lang):
     def body(v):
         rnd, size = v
@@ -660,6 +686,8 @@ def plan(tier, seed):
         jobs.append(("gen", {"seed": shard_seed(seed, ID, f"c{lang}"), "n": per, "lang": lang, "use_corpus": True}))
         jobs.append(("gen_strip", {"seed": shard_seed(seed, ID, f"s{lang}"), "n": 60 if quick else 1500, "lang": lang}))
         jobs.append(("marked_single_edits", {"lang": lang}))
+        if lang in ("C", "C++"):
+            jobs.append(("header_file_edits", {"lang": lang, "seed": shard_seed(seed, ID, f"h{lang}")}))
     files = corpus()
     stride = 30 if quick else 1
     for k, (lang, rel) in enumerate(files):
